@@ -432,7 +432,7 @@ class Variable:
         return None
 
     def clone(self):
-        return self.__class__()
+        return self.__class__(baseline_variable=self.baseline_variable)
 
     def check_set_value(self, value):
         if self.value_type == Enum and isinstance(value, str):
